@@ -304,6 +304,19 @@ pub struct RepoSpec {
     /// what the snapshot pins about targets.json and the delegated roles
     pub pin_targets: Pin,
     pub style: Style,
+    /// add unknown members at the top level of the signed portion of timestamp, snapshot,
+    /// targets and every delegated role
+    pub extra_members: bool,
+}
+
+/// Unknown top-level members a role's signed portion carries when `extra_members` is set.
+pub fn add_extras(signed: &mut J, role: &str) {
+    signed.set(&format!("x-{role}-note"), format!("unknown member of {role}"));
+    signed.set("x-number", 42u64);
+    signed.set(
+        "x-structured",
+        obj! {"list" => J::A(vec![J::U(1), J::from("two"), J::Null]), "nested" => obj!{"deep" => true}},
+    );
 }
 
 impl Default for RepoSpec {
@@ -324,6 +337,7 @@ impl Default for RepoSpec {
             pin_snapshot: Pin { hash: true, length: true },
             pin_targets: Pin { hash: true, length: true },
             style: Style::Pretty,
+            extra_members: false,
         }
     }
 }
@@ -388,7 +402,7 @@ fn build_deleg(
                 .collect(),
         ))
     };
-    let signed = targets_signed(
+    let mut signed = targets_signed(
         d.version,
         &d.expires,
         d.targets
@@ -397,6 +411,9 @@ fn build_deleg(
             .collect(),
         delegs,
     );
+    if spec.extra_members {
+        add_extras(&mut signed, "delegated");
+    }
     let signers: Vec<usize> = d
         .signers
         .clone()
@@ -464,7 +481,7 @@ pub fn build(spec: &RepoSpec) -> Built {
     }
 
     // targets
-    let tg_signed = targets_signed(
+    let mut tg_signed = targets_signed(
         spec.tg_version,
         &spec.tg_expires,
         spec.targets
@@ -473,6 +490,9 @@ pub fn build(spec: &RepoSpec) -> Built {
             .collect(),
         top_delegations(spec),
     );
+    if spec.extra_members {
+        add_extras(&mut tg_signed, "targets");
+    }
     let tg_env = sign_with(
         &tg_signed,
         &spec.keys.targets.keys[..(spec.keys.targets.threshold as usize).min(spec.keys.targets.keys.len())],
@@ -496,7 +516,10 @@ pub fn build(spec: &RepoSpec) -> Built {
     }
 
     // snapshot
-    let snap_signed = snapshot_signed(spec.snap_version, &spec.snap_expires, snap_meta);
+    let mut snap_signed = snapshot_signed(spec.snap_version, &spec.snap_expires, snap_meta);
+    if spec.extra_members {
+        add_extras(&mut snap_signed, "snapshot");
+    }
     let snap_env = sign_with(
         &snap_signed,
         &spec.keys.snapshot.keys[..(spec.keys.snapshot.threshold as usize).min(spec.keys.snapshot.keys.len())],
@@ -512,7 +535,10 @@ pub fn build(spec: &RepoSpec) -> Built {
     out.docs.insert("snapshot".into(), snap_env);
 
     // timestamp
-    let ts_signed = timestamp_signed(spec.ts_version, &spec.ts_expires, snap_meta_entry);
+    let mut ts_signed = timestamp_signed(spec.ts_version, &spec.ts_expires, snap_meta_entry);
+    if spec.extra_members {
+        add_extras(&mut ts_signed, "timestamp");
+    }
     let ts_env = sign_with(
         &ts_signed,
         &spec.keys.timestamp.keys[..(spec.keys.timestamp.threshold as usize).min(spec.keys.timestamp.keys.len())],
